@@ -1,6 +1,7 @@
 (** C13 - an I/O failure on one piece is confined to that piece.  Statements only. *)
 From TB Require Import Base Decimal BencodeModel TorrentModel TorrentProofs PathModel FsModel SolverModel FinderModel RunModel
                        SolverProofs RunProofs FsProofs FaultProofs PreludeProofs TableProofs Generated GeneratedObligations SystemModel SystemProofs GlueProofs RunExample SearchProofs EstablishProofs CompleteProofs.
+From TB Require ExecModel BalanceModel BalanceProofs ComposeProofs AvailProofs SearchProofs WholeRunProofs.
 Local Open Scope N_scope.
 
 (** For every piece and with no hypothesis at all: any I/O error answer (a candidate that cannot
@@ -46,9 +47,38 @@ Theorem C13_failure_elsewhere_costs_nothing H content es pc wit s s' i o :
   o = Success /\ forall sg, In sg (w_segs pc) -> e_pad (ps_entry sg) = false -> holds_seg content (s_fs s') sg.
 Proof. exact (fun Hfun Hwf Hall Hcr Hhash Hpadz Hne Hone => available_means_recovered_despite_faults H content es Hfun pc Hwf Hall Hcr Hhash Hpadz Hne Hone wit s s' i o). Qed.
 
+(** END TO END, ANY SCHEDULE (ComposeProofs.v, WholeRunProofs.v): the executor with [n] workers composed with
+    the evaluations, in which the evaluation of piece [i] meets no failure and EVERY OTHER evaluation may
+    fail anywhere, be answered arbitrarily, be cut in the middle of a write ([pstep_but i]).  Complete
+    runs exist, every run terminates, every complete run has evaluated every piece exactly once, and
+    piece [i], whose data is present, has ended in [Success] and is in place: failures elsewhere are
+    confined to the pieces they hit, and the run returns normally. *)
+Theorem C13_whole_run_failures_elsewhere_any_schedule nfiles gid n q0 H content export ts ix es ws f0 dev under i pc :
+  (forall k, (n <= k)%nat -> q0 k = []) ->
+  run_setup H content export ts ix es ws f0 (map (solve_prog H) ws) ->
+  (forall w, In w (ExecModel.flat nat n q0) -> (w < length ws)%nat) -> In i (ExecModel.flat nat n q0) ->
+  nth_error ws i = Some pc -> H (piece_bytes content pc) = w_hash pc -> Forall (SearchProofs.pad_zero content) (w_segs pc) ->
+  AvailProofs.ix_of_fs f0 dev under (metadata_table export ts 0) ix ->
+  Forall (AvailProofs.seg_present_stable content f0 under (metadata_table export ts 0) es) (w_segs pc) ->
+  let c0 := ComposeProofs.cinit n q0 f0 (map (solve_prog H) ws) in
+  let B := BalanceModel.balanced nfiles gid in
+  (exists c, ComposeProofs.creach n B (ComposeProofs.pstep_but i) c0 c /\ forall t, (t < n)%nat -> ExecModel.pc (ComposeProofs.ce c) t = ExecModel.PDone) /\
+  (forall c, ComposeProofs.creach n B (ComposeProofs.pstep_but i) c0 c ->
+     Acc (fun c'' c' => ComposeProofs.cany n B (ComposeProofs.pstep_but i) c' c'') c) /\
+  (forall c, ComposeProofs.creach n B (ComposeProofs.pstep_but i) c0 c -> (forall t, (t < n)%nat -> ExecModel.pc (ComposeProofs.ce c) t = ExecModel.PDone) ->
+     Permutation.Permutation (ExecModel.solved (ComposeProofs.ce c)) (ExecModel.flat nat n q0) /\
+     nth_error (s_pool (ComposeProofs.cs c)) i = Some (Ret Success) /\
+     forall sg, In sg (w_segs pc) -> e_pad (ps_entry sg) = false -> EstablishProofs.holds_seg content (s_fs (ComposeProofs.cs c)) sg).
+Proof.
+  exact (fun Hq0 => WholeRunProofs.whole_composed_run_recovers_despite_faults n (BalanceModel.balanced nfiles gid)
+           (BalanceProofs.balanced_perm nat nfiles gid) (BalanceProofs.balanced_out nat nfiles gid)
+           (BalanceProofs.balanced_mono nat nfiles gid) (BalanceProofs.balanced_total nat nfiles gid) q0 Hq0 H content export ts ix es ws f0 dev under i pc).
+Qed.
+
 Print Assumptions C13_fault_ends_the_piece.
 Print Assumptions C13_no_lock_leaked.
 Print Assumptions C13_ops_before_fault_good.
 Print Assumptions C13_fault_counted.
 Print Assumptions C13_whole_run_other_pieces_unaffected.
 Print Assumptions C13_failure_elsewhere_costs_nothing.
+Print Assumptions C13_whole_run_failures_elsewhere_any_schedule.
